@@ -5,7 +5,10 @@ must produce a counterexample).  (G) every case TLC enumerates is executed on th
 middlewares and on the real gRPC unary / stream interceptors by harness/drivers/middleware; the
 observation must be one of the behaviours the specification allows for that case.  (J) random cases
 that mix all options (longer chains of requests, larger limits, longer scripts, any percentage) are
-executed by the driver and their event log is validated by TLC against Trace_Middleware."""
+executed by the driver and their event log is validated by TLC against Trace_Middleware.
+Option lists: 0..3 DiscardFromTrace patterns of which every subset of positions matches some request
+(discarded iff ANY pattern matches), and three ways of writing the option lists (cfg.layout: once each,
+the other way round, every setter twice with an overridden instance first and the patterns in between)."""
 import json, os
 from vlib import core
 
@@ -30,6 +33,11 @@ GUARDS = [("rid", "rid.trusts_header_when_disabled", "TrustAndTruncate"),
           ("trace", "client.appends_to_forwarded_metadata", "ParentIsCallerSpan"),
           ("trace", "trace.span_reused", "FreshSpan"),
           ("trace", "trace.stale_parent_when_untraced", "UntracedIsClean"),
+          ("trace", "trace.last_discard_pattern_wins", "DiscardAnyPattern"),
+          ("trace", "trace.last_discard_pattern_wins", "Sampling0And100Exact"),
+          ("trace", "trace.first_discard_pattern_only", "DiscardAnyPattern"),
+          ("trace", "options.first_setter_wins", "Sampling0And100Exact"),
+          ("rid", "options.first_setter_wins", "TrustAndTruncate"),
           ("capture", "capture.status_follows_last_writeheader", "CaptureMatchesWritten"),
           ("capture", "capture.status_zero_without_writeheader", "CaptureMatchesWritten")]
 
@@ -42,14 +50,18 @@ def dev(d):
 
 def slices(quick):
     """(label, consts) of the generation runs."""
+    # MaxDiscards: 0..n DiscardFromTrace patterns, every subset of positions matching; Layouts / OptHops: the ways of
+    # writing the option lists, explored for chains of up to OptHops servers
+    every, dup = '{"plain", "rev", "dup"}', '{"plain", "dup"}'
     if quick:
-        return [("rid", {"Mode": '"rid"', "MaxHops": 4, "MaxReq": 1, "LimitMax": 3}),
-                ("trace-4x1", {"Mode": '"trace"', "MaxHops": 4, "MaxReq": 1}),
-                ("trace-2x2", {"Mode": '"trace"', "MaxHops": 2, "MaxReq": 2, "MaxDiscards": 0}),
+        return [("rid", {"Mode": '"rid"', "MaxHops": 4, "MaxReq": 1, "LimitMax": 3, "Layouts": dup, "OptHops": 2}),
+                ("trace-4x1", {"Mode": '"trace"', "MaxHops": 4, "MaxReq": 1, "MaxDiscards": 3, "Layouts": every, "OptHops": 2}),
+                ("trace-2x2", {"Mode": '"trace"', "MaxHops": 2, "MaxReq": 2, "MaxDiscards": 0, "Layouts": dup, "OptHops": 2}),
                 ("capture", {"Mode": '"capture"', "MaxHops": 2, "MaxScript": 3})]
-    return [("rid", {"Mode": '"rid"', "MaxHops": 4, "MaxReq": 1, "LimitMax": 5}),
-            ("trace-4x2", {"Mode": '"trace"', "MaxHops": 4, "MaxReq": 2}),
-            ("trace-2x3", {"Mode": '"trace"', "MaxHops": 2, "MaxReq": 3}),
+    return [("rid", {"Mode": '"rid"', "MaxHops": 4, "MaxReq": 1, "LimitMax": 5, "Layouts": dup, "OptHops": 4}),
+            ("trace-4x1", {"Mode": '"trace"', "MaxHops": 4, "MaxReq": 1, "MaxDiscards": 3, "Layouts": every, "OptHops": 4}),
+            ("trace-4x2", {"Mode": '"trace"', "MaxHops": 4, "MaxReq": 2, "MaxDiscards": 2, "Layouts": every, "OptHops": 1}),
+            ("trace-2x3", {"Mode": '"trace"', "MaxHops": 2, "MaxReq": 3, "MaxDiscards": 1, "Layouts": every, "OptHops": 2}),
             ("capture", {"Mode": '"capture"', "MaxHops": 2, "MaxScript": 4})]
 
 
@@ -116,6 +128,18 @@ def rid_class(case):
     return "%s/len_%s_limit%s" % (where, rel, name)
 
 
+def discard_class(wire):
+    """Input class of the discard list for a request that arrived as `wire`: which pattern positions match it
+    (the_only = one pattern given; first_only / middle_only / last_only = one of several)."""
+    m = wire.get("dmatch") or []
+    if not m or wire.get("trace", "none") != "none":        # no pattern, or an inbound trace id: discards play no part
+        return ""
+    n = sum(1 for x in m if x)
+    w = ("none" if n == 0 else "the_only" if len(m) == 1 else "all" if n == len(m) else "several" if n > 1
+         else "first_only" if m[0] else "last_only" if m[-1] else "middle_only")
+    return "/discard_pattern_matching=%s" % w
+
+
 def classify(case, pred, obs):
     """Finding key from the failing case only: transport / observation / field / input class."""
     c = case["cfg"]
@@ -143,10 +167,13 @@ def classify(case, pred, obs):
             return "C19/%s/received/%s" % (c["transport"], "requestid" if ("rid" in parts or "ridc" in parts) else parts[-1])
         if fld in ("rid", "md"):
             return "C19/%s/requestid/%s" % (c["transport"], rid_class(case))
+        import re
+        m = re.match(r"hops\[(\d+)\]$", parts[0])
+        dc = discard_class(obs["hops"][int(m.group(1))]["in"]) if m and int(m.group(1)) < len(obs.get("hops", [])) else ""
         if fld != "trace":      # span / parent: the sampling options do not matter
-            return "C19/%s/trace/%s%s" % (c["transport"], fld, "/forwarded_metadata" if c.get("fwdmd") else "")
-        return "C19/%s/trace/%s/sampling=%s%s" % (c["transport"], fld, c["smode"],
-                                                  c["pct"] if c["smode"] == "percent" else "")
+            return "C19/%s/trace/%s%s%s" % (c["transport"], fld, "/forwarded_metadata" if c.get("fwdmd") else "", dc)
+        return "C19/%s/trace/%s/sampling=%s%s%s" % (c["transport"], fld, c["smode"],
+                                                    c["pct"] if c["smode"] == "percent" else "", dc)
     return "C19/%s/other" % c["transport"]
 
 
@@ -287,7 +314,8 @@ def run_random(ctx, quick, nt, maxfail=6):
                 fld = "status" if (o["st"] != o["rst"] or o["lst"] != o["rst"]) else "bytes" if (o["by"] != o["rby"] or o["lby"] != o["rby"]) else None
                 key = "C19/http/capture/%s/%s" % (fld, script_class(rs["reqs"][o["q"] - 1]["script"])) if fld else "C19/http/random/log"
             else:
-                key = "C19/%s/random/%s" % (t, "panic" if ev["ev"] == "panic" else ev["ev"])
+                key = "C19/%s/random/%s%s" % (t, "panic" if ev["ev"] == "panic" else ev["ev"],
+                                              discard_class(ev["o"]["in"]) if ev["ev"] == "hop" else "")
         ctx.violation(key, "event %d of a random case (%s) is not a behaviour of Middleware.tla: %s" % (
             hwm - pos, rs["cfg"]["transport"], json.dumps(ev, sort_keys=True)[:300]),
             {"trace_case": [json.loads(x) for x in bad], "rejected_event": hwm - pos})
@@ -337,13 +365,17 @@ def run(ctx):
     ctx.cov["rule"] = ("cases = every (configuration, request history) enumerated by TLC from Middleware.tla in the slices rid / trace / "
                        "capture, plus the random cases of the trace direction; non-trivial = chain depth >= 2, or >= 2 requests, or a trusted "
                        "inbound request id at or above a positive limit, or non-default sampling / discards / inbound trace or parent header, "
-                       "or a response script of >= 2 operations; distinct = canonical JSON of (cfg, reqs)")
+                       "or a response script of >= 2 operations; distinct = canonical JSON of (cfg, reqs) - cfg includes the number of "
+                       "discard patterns and the layout of the option lists, a request the pattern positions that match it")
     ctx.assumptions += [
         "fresh request ids are 8 characters long (shortID: 6 random bytes, base64) and never contain the characters of the inbound test values",
         "0 < percent < 100, the adaptive sampler after its sample size is reached, a ParentSpanID header without TraceID and the captured "
         "status of a handler that writes nothing are left open by the documentation: any outcome is accepted",
         "the network between hops is simulated in process: only headers / metadata cross a hop boundary",
-        "1xx informational statuses and bodies on 204/304 are not generated"]
+        "1xx informational statuses and bodies on 204/304 are not generated",
+        "option lists: a later instance of a setter option overrides an earlier one (the options are run in order, as the existing "
+        "on_custom / custom_off cases already assume); SamplingPercent and MaxSamplingRate are documented as mutually exclusive and are "
+        "never given together"]
     gen = Gen(ctx)
     # (M) vacuity guards: every invariant fails on a small instance once the matching deviation is enabled
     # (run four at a time; ctx.subdir is not thread safe, hence the lock)
@@ -359,7 +391,8 @@ def run(ctx):
 
     def guard(g):
         mode, d, inv = g
-        small = {"MaxHops": 2, "MaxReq": 2 if d.startswith("sampler.adaptive") else 1, "LimitMax": 2, "MaxScript": 2}
+        small = {"MaxHops": 2, "MaxReq": 2 if d.startswith("sampler.adaptive") else 1, "LimitMax": 2, "MaxScript": 2,
+                 "MaxDiscards": 3 if "discard" in d else 1, "Layouts": '{"plain", "rev", "dup"}', "OptHops": 2}
         txt = re.sub(r"(?m)^INVARIANTS.*$", "INVARIANTS " + inv, base)
         r = ctx.mc_expect_violation(MC, cfg_text=txt, consts=dict(small, Mode='"%s"' % mode, Deviations=dev(d)),
                                     label="guard-%s-%s" % (d, inv), timeout=600, workers=2)
